@@ -196,6 +196,21 @@ VDEFAULT = VDefault()
 VARS_FLAVOUR = ['vars']
 
 
+class NestLeaf:
+    """makes a complete, independent glom() call of its own that binds and reads its own S.globals"""
+    def __init__(self, path):
+        self.path = tuple(path)
+
+    def glomit(self, target, scope):
+        r = _glom_fn({'a': 1}, ('a', A.globals.g, Coalesce(S.globals.g, default=Val(INV))))
+        if r != 1:
+            raise AssertionError('the independent inner call misbehaved: %r' % (r,))
+        return target
+
+    def __repr__(self):
+        return 'Nest%s' % ''.join(str(i) for i in self.path)
+
+
 class Mark:
     """logs that it ran"""
     def __init__(self, run, path):
@@ -211,8 +226,9 @@ class Mark:
 
 class Read:
     """logs what S.<name> (or S.globals.<name>) resolves to at this position"""
-    def __init__(self, run, path, name, glob=False, style='attr', what='read'):
+    def __init__(self, run, path, name, glob=False, style='attr', what='read', in_first=False):
         self.run, self.path, self.name, self.glob, self.what = run, tuple(path), name, glob, what
+        self.in_first = in_first      # the lookup happens inside the key spec of Iter().first(key)
         if what == 'vread' and VARS_FLAVOUR[0] == 'vars':
             self.spec = Coalesce(getattr(getattr(S, name), 'k'), default=Val(INV))
         elif what == 'vread' and VARS_FLAVOUR[0] == 'dict':
@@ -227,7 +243,19 @@ class Read:
             self.spec = Coalesce(getattr(S, name), default=Val(INV))
 
     def glomit(self, target, scope):
-        v = scope[GLOM](target, self.spec, scope)
+        if self.in_first:
+            from glom import Iter
+            box = []
+            outer = self
+
+            class Key:
+                def glomit(self, t, sc):
+                    box.append(sc[GLOM](t, outer.spec, sc))
+                    return True
+            scope[GLOM]([target], Auto(Iter().first(Key())), scope)      # (Auto: first() is a tuple of two steps)
+            v = box[0] if box else ('key-not-evaluated',)
+        else:
+            v = scope[GLOM](target, self.spec, scope)
         self.run.log.append({'p': list(self.path), 'what': self.what, 'v': abstract_val(v)})
         return target
 
@@ -294,7 +322,9 @@ def build(tree, run, path=(), index=None):
     elif k == 'probe':
         s = Probe(run, path)
     elif k == 'read':
-        s = Read(run, path, a)
+        s = Read(run, path, a, in_first=(VARS_FLAVOUR[0] == 'firstkey'))
+    elif k == 'nest':
+        s = NestLeaf(path)
     elif k == 'gread':
         s = Read(run, path, a, glob=True)
     elif k == 'vread':
